@@ -8,7 +8,7 @@ theorem invC_step_5 {w s l s'} (ha : InvA w s) (hi : InvC s) (hs : Step s l s') 
   cases hs with
   | oRdLoad t op rest x h ht hop hr hx => invC_auto
   | oReady t x h =>
-      by_cases hc : x ≠ .list [] ∧ (s.obs t).todo.head? = some .readyTouch
+      by_cases hc : x = .result ∧ (s.obs t).todo.head? = some .readyTouch
       · simp only [doReady, readyNext_pos hc]; invC_auto
       · simp only [doReady, readyNext_neg hc]; invC_auto
   | oTouch t h => invC_auto
